@@ -19,9 +19,12 @@ class C20(Check):
                "EDNS0 option and SVCB parameter values are (code, packed value, reported length) triples at this level"]
 
     partial = ["'for records obtained from the wire, duplicates exactly when type, class and the lower-cased uncompressed owner and RDATA octets "
-               "are equal': proved for names (name_equal_iff_lowercased_wire_equal) and as table cross-checks (every packed field is "
-               "compared; name fields and only name fields case-insensitively); the RDATA-octet statement itself is checked by the "
-               "harness oracle on wire-obtained pairs, not proved",
+               "are equal' is proved (wire_duplicate_iff_lowercased_octets_equal_partial) for every type except OPT, for records whose RDATA "
+               "is complete and canonically encoded (the hypotheses of C01's record_converse: RDLENGTH > 0, names written in full, "
+               "canonical bitmap blocks, masked APL addresses, non-normalised option values); outside these the clause is false on the "
+               "model AND on the implementation: *_refuted witnesses (trailing-zero / empty bitmap block, SVCB mandatory order, RDATA-less "
+               "vs zero RDATA, OPT), each a recorded finding checked by the harness sweep; records holding compression pointers and CAA "
+               "values longer than 1025 octets are covered by the harness oracle only",
                "'holds between a record and its copy': reflexivity on typed values; the link to the copy model (C16) is by the harness"]
 
     def nontrivial(self, c):
